@@ -131,6 +131,17 @@ KERNEL int K(k_dynamic_assign_from)(const size_t* dshape, const size_t* sshape, 
   for (size_t i = 0; i < d.data.size() && i < CAPN; i++) odata[i] = d.data[i];
   return 1;
 }
+// the same through the other two resize overloads of dynamic_ndarray: a generic index array (std::array / static_vector) and the std::vector shape_type
+#define DYN_ASSIGN(NAME, SHAPE_EXPR) KERNEL int K(k_dynamic_assign_from_##NAME)(const size_t* dshape, const size_t* sshape, const unsigned* sdata, size_t* odim, size_t* oshape, size_t* olen, unsigned* odata){ \
+  na::dynamic_ndarray<unsigned> d; d.resize(SHAPE_EXPR); \
+  hyb_t<unsigned,CAPN,2> s; if (!mk2(s, sshape, sdata)) return -1; \
+  d = s; \
+  *odim = put(d.shape(), oshape); *olen = d.data.size(); \
+  for (size_t i = 0; i < d.data.size() && i < CAPN; i++) odata[i] = d.data[i]; \
+  return 1; }
+DYN_ASSIGN(arr, (mk_arr<size_t,2>(dshape)))
+DYN_ASSIGN(sv, (mk_sv<size_t,4>(dshape, 2)))
+DYN_ASSIGN(vec, (std::vector<size_t>{dshape[0], dshape[1]}))
 // fixed_ndarray<unsigned,2,3>: op 0 x[t](i,j) = v  1 assign other  2 copy-construct+assign  3 self-assign
 KERNEL void K(k_hist_fixed23)(const unsigned char* ops, const unsigned char* tgt, const size_t* widx, const unsigned* v, size_t k, const unsigned* init, size_t* oshape, size_t* ostrides, unsigned* oelems){
   using F = na::fixed_ndarray<unsigned,2,3>;
